@@ -89,6 +89,22 @@ Inductive encodes : nat -> ev -> list Z -> Prop :=
     encodes (S d) (EAnn ty (combine (map uleb_value names) vs))
             ((29 + 32 * arg) :: tybs ++ sz ++ concat (map (fun p => fst p ++ snd p) (combine names bss))).
 
+Lemma encodes_nonempty : forall d e bs, encodes d e bs -> (0 < length bs)%nat.
+Proof. intros d e bs H. destruct H as [d e bs H| |]; [destruct H|..]; cbn [length]; lia. Qed.
+Lemma values_length : forall d es bss, Forall2 (encodes d) es bss -> (length es <= length (concat bss))%nat.
+Proof.
+  intros d es bss H. induction H as [|e bs es bss He Hes IH]; [cbn; lia|]. cbn [length concat]. rewrite app_length.
+  pose proof (encodes_nonempty _ _ _ He). lia.
+Qed.
+Lemma cnt_exact : forall n bs rest, (n <= length bs)%nat -> cnt (Z.of_nat n) (bs ++ rest) = n.
+Proof. intros n bs rest H. unfold cnt. rewrite app_length. rewrite Z.min_l by lia. apply Nat2Z.id. Qed.
+Lemma elements_length : forall d vs bss (names : list (list Z)), Forall2 (encodes d) vs bss -> length names = length vs ->
+  (length vs <= length (concat (map (fun p => fst p ++ snd p) (combine names bss))))%nat.
+Proof.
+  intros d vs bss names H. revert names. induction H as [|e bs vs bss He Hes IH]; intros names Hl; [cbn; lia|].
+  destruct names as [|nb names]; [discriminate|]. cbn [length combine map concat fst snd]. rewrite !app_length.
+  pose proof (encodes_nonempty _ _ _ He). specialize (IH names ltac:(cbn [length] in Hl; lia)). lia.
+Qed.
 Lemma parse_values_spec : forall (rec : list Z -> result (ev * list Z)) d es bss rest,
   (forall e bs r, encodes d e bs -> rec (bs ++ r) = Ok (e, r)) -> Forall2 (encodes d) es bss ->
   parse_values rec (length es) (concat bss ++ rest) = Ok (es, rest).
@@ -113,12 +129,12 @@ Lemma parse_value_S : forall f bs, parse_value (S f) bs = (do '(val, bs) <- get_
 Proof. reflexivity. Qed.
 Lemma parse_step_arr : forall rec arg bs, 0 <= arg < 8 ->
   parse_step rec (28 + 32 * arg) bs =
-  (do '(size, bs) <- read_u bs; do '(vs, bs) <- parse_values rec (Z.to_nat size) bs; Ok (EArr vs, bs)).
+  (do '(size, bs) <- read_u bs; do '(vs, bs) <- parse_values rec (cnt size bs) bs; Ok (EArr vs, bs)).
 Proof. intros rec arg bs Ha. unfold parse_step. destruct (header_split 28 arg ltac:(lia) Ha) as [E1 E2]. rewrite E1, E2. reflexivity. Qed.
 Lemma parse_step_ann : forall rec arg bs, 0 <= arg < 8 ->
   parse_step rec (29 + 32 * arg) bs =
   (do '(ty, bs) <- read_u bs; do '(size, bs) <- read_u bs;
-   do '(es, bs) <- parse_elements rec (Z.to_nat size) bs; Ok (EAnn ty es, bs)).
+   do '(es, bs) <- parse_elements rec (cnt size bs) bs; Ok (EAnn ty es, bs)).
 Proof. intros rec arg bs Ha. unfold parse_step. destruct (header_split 29 arg ltac:(lia) Ha) as [E1 E2]. rewrite E1, E2. reflexivity. Qed.
 
 Theorem parse_encoded : forall d e bs, encodes d e bs -> forall rest, parse_value (S d) (bs ++ rest) = Ok (e, rest).
@@ -128,12 +144,12 @@ Proof.
   - inversion H as [d0 e0 bs0 Hl | d0 arg es bss sz Ha Hw Hv Hf | d0 arg ty tybs names vs bss sz Ha Hw1 Hv1 Hw2 Hv2 Hn Hlen Hf]; subst.
     + apply parse_leaf. assumption.
     + rewrite parse_value_S. cbn [app get_byte bind]. rewrite (parse_step_arr _ arg) by exact Ha.
-      rewrite <- app_assoc. rewrite read_u_spec by exact Hw. cbn [bind]. rewrite Hv, Nat2Z.id.
+      rewrite <- app_assoc. rewrite read_u_spec by exact Hw. cbn [bind]. rewrite Hv, (cnt_exact _ _ _ (values_length _ _ _ Hf)).
       rewrite (parse_values_spec (parse_value (S d)) d es bss rest); [reflexivity| |exact Hf].
       intros e0 bs0 r0 He0. apply IH. exact He0.
     + rewrite parse_value_S. cbn [app get_byte bind]. rewrite (parse_step_ann _ arg) by exact Ha.
       rewrite <- !app_assoc. rewrite read_u_spec by exact Hw1. cbn [bind]. rewrite read_u_spec by exact Hw2. cbn [bind].
-      rewrite Hv2, Nat2Z.id.
+      rewrite Hv2, (cnt_exact _ _ _ (elements_length _ _ _ names Hf Hlen)).
       rewrite (parse_elements_spec (parse_value (S d)) d vs bss names rest); [reflexivity| |exact Hf|exact Hn|exact Hlen].
       intros e0 bs0 r0 He0. apply IH. exact He0.
 Qed.
